@@ -124,3 +124,159 @@ Proof.
   - simpl. lra.
   - intros q [<-|[]]. unfold persistence_nat. simpl. lra.
 Qed.
+
+(* =============================================================================================
+   Cross-property glue (lemmas in Proofs/ImageGlueP.v): C13 -> C11 and C12 -> C11.
+   `kernel_assumption` / `mono01 Phi` above are hypotheses on abstract kernels; here they are DISCHARGED for
+   the kernel models of persim/images_kernels.py (Model/KernelM.v, C13) as images.py calls them
+   (Model/ImageKernelM.v), and the mesh hypotheses `nondecr` for the meshes of C12's imager states. *)
+From Coq Require Import ZArith QArith Qreals Lia.
+From Persim Require Model.ImagerM Proofs.ImagerP Model.KernelM Spec.BvnS Model.ImageKernelM Proofs.ImageGlueP.
+Open Scope R_scope.
+
+(* C13's `cdf_like` and this file's `mono01` are one notion *)
+Theorem cdf_like_iff_mono01 : forall Phi, BvnS.cdf_like Phi <-> mono01 Phi.
+Proof. exact ImageGlueP.cdf_like_mono01. Qed.
+Print Assumptions cdf_like_iff_mono01.
+
+(* H3 (b): kernel = images_kernels.uniform with any width, height > 0 (C13: uniform_is_box_cdf; above:
+   uniform_kernel_valid).  Nothing is assumed of Phi / Kgauss: a callable kernel never meets them. *)
+Theorem image_nonneg_uniform : forall Phi Kgauss skew w width height bp pp dgm,
+  0 < width -> 0 < height -> nondecr bp -> nondecr pp ->
+  (forall q, In q dgm -> 0 <= w (fst (bp_of skew q)) (snd (bp_of skew q))) ->
+  Forall (Forall (fun v => 0 <= v))
+         (transform_one Phi Kgauss skew w (OtherKernel (ImageKernelM.uniform_kernelM width height)) bp pp dgm).
+Proof. exact ImageGlueP.image_nonneg_unif. Qed.
+Print Assumptions image_nonneg_uniform.
+
+Theorem image_total_le_weight_uniform : forall Phi Kgauss skew w width height bp pp dgm,
+  0 < width -> 0 < height -> nondecr bp -> nondecr pp ->
+  (forall q, In q dgm -> 0 <= w (fst (bp_of skew q)) (snd (bp_of skew q))) ->
+  0 <= img_total (transform_one Phi Kgauss skew w (OtherKernel (ImageKernelM.uniform_kernelM width height)) bp pp dgm)
+    <= total_weight w (to_birth_pers skew dgm).
+Proof. exact ImageGlueP.image_total_unif. Qed.
+Print Assumptions image_total_le_weight_uniform.
+
+(* H3 (a): kernel = images_kernels.gaussian (model of C13, either reading of line 173) with sigma =
+   [[sxx, 0], [0, syy]], for EVERY Phi that is non-decreasing with values in [0,1] (C13:
+   gaussian_zero_cov_is_product; above: product_kernels_valid).  sxx = syy takes the fast path, sxx <> syy
+   the general path; both are covered. *)
+Theorem image_nonneg_gaussian_zero_cov : forall thr Phi skew w sxx syy bp pp dgm,
+  mono01 Phi -> nondecr bp -> nondecr pp ->
+  (forall q, In q dgm -> 0 <= w (fst (bp_of skew q)) (snd (bp_of skew q))) ->
+  Forall (Forall (fun v => 0 <= v))
+         (transform_one Phi (ImageKernelM.gaussian_kernelM_gen thr Phi) skew w (GaussMatrix sxx 0 syy) bp pp dgm).
+Proof. exact ImageGlueP.image_nonneg_gauss. Qed.
+Print Assumptions image_nonneg_gaussian_zero_cov.
+
+Theorem image_total_le_weight_gaussian_zero_cov : forall thr Phi skew w sxx syy bp pp dgm,
+  mono01 Phi -> nondecr bp -> nondecr pp ->
+  (forall q, In q dgm -> 0 <= w (fst (bp_of skew q)) (snd (bp_of skew q))) ->
+  0 <= img_total (transform_one Phi (ImageKernelM.gaussian_kernelM_gen thr Phi) skew w (GaussMatrix sxx 0 syy) bp pp dgm)
+    <= total_weight w (to_birth_pers skew dgm).
+Proof. exact ImageGlueP.image_total_gauss. Qed.
+Print Assumptions image_total_le_weight_gaussian_zero_cov.
+
+(* the kernel hypotheses themselves, for the record: what the four theorems above feed to pixels_nonneg /
+   pixel_total_le_weight *)
+Theorem kernelM_assumptions_hold : forall thr Phi sxx syy width height,
+  (mono01 Phi -> kernel_assumption (ImageKernelM.gaussian_kernelM_gen thr Phi) (GaussMatrix sxx 0 syy)) /\
+  (0 < width -> 0 < height ->
+   forall Kgauss, kernel_assumption Kgauss (OtherKernel (ImageKernelM.uniform_kernelM width height))) /\
+  ImageKernelM.uniform_kernelM width height = uniform_kernel width height /\
+  (0 < width -> 0 < height -> forall mb mp x y,
+   ImageKernelM.uniform_kernelM width height mb mp x y = BvnS.box_cdf mb mp width height x y).
+Proof.
+  intros. split; [apply ImageGlueP.gaussian_kernelM_assumption|]. split.
+  - intros W H Kg. exact (ImageGlueP.uniform_kernelM_mass width height W H).
+  - split; [reflexivity|]. intros. apply ImageGlueP.uniform_kernelM_is_box_cdf; assumption.
+Qed.
+Print Assumptions kernelM_assumptions_hold.
+
+(* C12 -> C11: on the meshes of ANY consistent imager state the mesh hypotheses hold, so for every kernel
+   configuration meeting kernel_assumption the image is non-negative and its total at most the total weight *)
+Theorem pixels_nonneg_on_imager_state : forall (s : ImagerM.state ImagerM.QNum) Phi Kgauss skew w k dgm,
+  ImagerP.Inv s -> mono01 Phi -> kernel_assumption Kgauss k ->
+  (forall q, In q dgm -> 0 <= w (fst (bp_of skew q)) (snd (bp_of skew q))) ->
+  let img := transform_one Phi Kgauss skew w k (map Q2R (ImagerM.bpnts s)) (map Q2R (ImagerM.ppnts s)) dgm in
+  Forall (Forall (fun v => 0 <= v)) img /\
+  0 <= img_total img <= total_weight w (to_birth_pers skew dgm).
+Proof. exact ImageGlueP.image_nonneg_total_on_state. Qed.
+Print Assumptions pixels_nonneg_on_imager_state.
+
+(* H4: with the uniform kernel model every pixel is the weighted AREA FRACTION of the kernel box (centred at the
+   point, width x height) that falls into the pixel: overlap a b x0 x1 = length of [a,b] /\ [x0,x1] *)
+Theorem uniform_pixel_is_area_fraction : forall Phi Kgauss skew w width height bp pp dgm i j,
+  0 < width -> 0 < height -> nondecr bp -> nondecr pp -> (S i < length bp)%nat -> (S j < length pp)%nat ->
+  nth j (nth i (transform_one Phi Kgauss skew w (OtherKernel (ImageKernelM.uniform_kernelM width height)) bp pp dgm) []) 0
+  = sumR (map (fun pt => w (fst pt) (snd pt) *
+                 (Rmax 0 (Rmin (fst pt + width / 2) (nth (S i) bp 0) - Rmax (fst pt - width / 2) (nth i bp 0)) *
+                  Rmax 0 (Rmin (snd pt + height / 2) (nth (S j) pp 0) - Rmax (snd pt - height / 2) (nth j pp 0))
+                  / (width * height)))
+              (to_birth_pers skew dgm)).
+Proof. exact ImageGlueP.uniform_pixel_area. Qed.
+Print Assumptions uniform_pixel_is_area_fraction.
+
+(* H4: the equality case of pixel_total_le_weight (via pixel_sums_telescope): when every kernel box lies inside
+   the imaged region span bp x span pp no weight is lost - for any mesh, and for the mesh of a consistent
+   imager state, whose region is [blo, bhi] x [plo, phi] *)
+Theorem uniform_mass_conserved : forall Phi Kgauss skew w width height bp pp dgm,
+  0 < width -> 0 < height ->
+  (forall pt, In pt (to_birth_pers skew dgm) ->
+     fst (span bp) <= fst pt - width / 2 /\ fst pt + width / 2 <= snd (span bp) /\
+     fst (span pp) <= snd pt - height / 2 /\ snd pt + height / 2 <= snd (span pp)) ->
+  img_total (transform_one Phi Kgauss skew w (OtherKernel (ImageKernelM.uniform_kernelM width height)) bp pp dgm)
+  = total_weight w (to_birth_pers skew dgm).
+Proof. exact ImageGlueP.uniform_mass_conserved. Qed.
+Print Assumptions uniform_mass_conserved.
+
+Theorem uniform_mass_conserved_on_imager_state : forall (s : ImagerM.state ImagerM.QNum) Phi Kgauss skew w width height dgm,
+  ImagerP.Inv s -> 0 < width -> 0 < height ->
+  (forall pt, In pt (to_birth_pers skew dgm) ->
+     Q2R (ImagerM.blo s) <= fst pt - width / 2 /\ fst pt + width / 2 <= Q2R (ImagerM.bhi s) /\
+     Q2R (ImagerM.plo s) <= snd pt - height / 2 /\ snd pt + height / 2 <= Q2R (ImagerM.phi s)) ->
+  img_total (transform_one Phi Kgauss skew w (OtherKernel (ImageKernelM.uniform_kernelM width height))
+                           (map Q2R (ImagerM.bpnts s)) (map Q2R (ImagerM.ppnts s)) dgm)
+  = total_weight w (to_birth_pers skew dgm).
+Proof. exact ImageGlueP.uniform_mass_conserved_on_state. Qed.
+Print Assumptions uniform_mass_conserved_on_imager_state.
+
+(* non-vacuity: the hypotheses of the H3 theorems are satisfiable (a step function for Phi, a 2 x 2 mesh, the
+   persistence weight) ... *)
+Example kernelM_hyp_satisfiable :
+  mono01 (fun x => if Rle_dec 0 x then 1 else 0) /\ 0 < 1 / 2 /\ nondecr [0; 1; 2] /\
+  (forall q, In q [(0, 1)] -> 0 <= persistence_nat 1 (fst (bp_of true q)) (snd (bp_of true q))).
+Proof.
+  split; [|split; [lra|split]].
+  - split.
+    + intros x y Hxy. destruct (Rle_dec 0 x); destruct (Rle_dec 0 y); lra.
+    + intros x. destruct (Rle_dec 0 x); lra.
+  - simpl. lra.
+  - intros q [<-|[]]. unfold persistence_nat. simpl. lra.
+Qed.
+
+(* ... of uniform_mass_conserved too, and its conclusion is not 0 = 0: one point of weight 3 at (1, 1) with a
+   1/2 x 1/2 box on the mesh [0;1;2] x [0;1;2] - the box straddles all four pixels, the image total is 3 *)
+Example uniform_mass_conserved_instance : forall Phi Kgauss,
+  img_total (transform_one Phi Kgauss false (fun _ _ => 3) (OtherKernel (ImageKernelM.uniform_kernelM (1 / 2) (1 / 2)))
+                           [0; 1; 2] [0; 1; 2] [(1, 1)]) = 3.
+Proof.
+  intros. rewrite uniform_mass_conserved.
+  - unfold total_weight. simpl. lra.
+  - lra.
+  - lra.
+  - intros pt [<-|[]]. unfold span. simpl. lra.
+Qed.
+
+(* ... and uniform_pixel_is_area_fraction on the same input: pixel (0,0) holds a quarter of the weight *)
+Example uniform_pixel_is_area_fraction_instance : forall Phi Kgauss,
+  nth 0 (nth 0 (transform_one Phi Kgauss false (fun _ _ => 3) (OtherKernel (ImageKernelM.uniform_kernelM (1 / 2) (1 / 2)))
+                              [0; 1; 2] [0; 1; 2] [(1, 1)]) []) 0 = 3 / 4.
+Proof.
+  intros. rewrite uniform_pixel_is_area_fraction; try lra; try (simpl; lia); try (simpl; lra).
+  cbn [to_birth_pers map sumR fold_right fst snd nth].
+  replace (Rmin (1 + 1 / 2 / 2) 1) with 1 by (unfold Rmin; destruct Rle_dec; lra).
+  replace (Rmax (1 - 1 / 2 / 2) 0) with (3 / 4) by (unfold Rmax; destruct Rle_dec; lra).
+  replace (Rmax 0 (1 - 3 / 4)) with (1 / 4) by (unfold Rmax; destruct Rle_dec; lra).
+  lra.
+Qed.
